@@ -50,12 +50,13 @@ def load_file(path: Path, contracts: dict[str, Contract], helpers: dict[str, ast
                     raise BindingError(f"{path}: unexpected statement in contract {target}")
                 key = st.targets[0].id
                 val = st.value
-                if key in ("requires", "ensures", "modifies", "on_raise"):
+                if key in ("requires", "ensures", "modifies", "on_raise", "everywhere"):
                     c.clauses[key] = val
                 elif key == "raises":
                     assert isinstance(val, ast.Dict)
                     for k, v in zip(val.keys, val.values):
-                        c.raises[_names(k)[0]] = v  # type: ignore[arg-type]
+                        for nm in _names(k):  # type: ignore[arg-type]
+                            c.raises[nm] = v
                 elif key == "may_raise":
                     c.may_raise = _names(val)
                 elif key == "loops":
@@ -108,7 +109,7 @@ def _bind_one(target: str, c: Contract) -> None:
             raise BindingError(f"contract target {target} not found in the current source: {e}") from e
         a = fi.node.args
         params = {p.arg for p in list(a.posonlyargs) + list(a.args) + list(a.kwonlyargs)}
-        allowed = params | {"result"} | set(c.ghost)
+        allowed = params | {"result", "exc0", "exc1"} | set(c.ghost)
         lams: list[ast.expr] = list(c.clauses.values()) + list(c.raises.values())
         for lam in lams:
             if isinstance(lam, ast.Lambda):
